@@ -7,9 +7,13 @@
    set lookup in the translator-generated tables, the closure state of ByContextualEx/ByDate,
    value comparison, Reverse, sort-name parsing) is modelled here.
 
-   ByNameSmart is modelled AFTER the repair fixes/C13-bynamesmart.patch (finding #19a);
-   the pinned version is kept as [by_name_smart_pinned] for the refutation theorem only.
-   ByContextualEx / ByDate are modelled as they are (finding #19b: recorded, not repaired). *)
+   The model is of /repo after the repairs
+     fixes/C13-bynamesmart.patch          (ByNameSmart: numbers, then value, then bytes),
+     fixes/C13-contextual-ties.patch      (equal position / equal instant: the fallback breaks the tie),
+     fixes/C13-stateful-comparators.patch (ByContextualEx decides by the two keys alone);
+   the pinned versions are kept as [by_name_smart_pinned], [by_contextual_pinned] for the
+   refutation theorems only.  ByDate still carries closure state (finding C13-stateful-date:
+   recorded, not repaired - no state-free order passes the package's own TestDateFallback). *)
 From Coq Require Import List NArith ZArith Bool Lia String.
 From RareV Require Import Base.Hex Gen.GenSortSets.
 Import ListNotations.
@@ -169,21 +173,37 @@ Fixpoint lookup (s : sortset) (n : bytes) : option Z :=
   | [] => None
   | (k, v) :: r => if bytes_eqb k n then Some v else lookup r n
   end.
-Fixpoint infer_from (i : nat) (sets : list sortset) (low : bytes) : option nat :=
+(* lookupSortSet: index of the first set that has the lower-cased value, and its position there *)
+Fixpoint set_pos_from (i : nat) (sets : list sortset) (low : bytes) : option (nat * Z) :=
   match sets with
   | [] => None
-  | s :: r => match lookup s low with Some _ => Some i | None => infer_from (S i) r low end
+  | s :: r => match lookup s low with Some v => Some (i, v) | None => set_pos_from (S i) r low end
   end.
-(* inferSortSetByValue: index of the first set that has the lower-cased value *)
-Definition infer (n : bytes) : option nat := infer_from 0 sortSets (lower n).
-Definition set_at (i : nat) : sortset := nth i sortSets [].
-(* position of a key in set i *)
-Definition kpos (i : nat) (k : key) : option Z := lookup (set_at i) (lower (kname k)).
+Definition set_pos (n : bytes) : option (nat * Z) := set_pos_from 0 sortSets (lower n).
+(* the pair (set index, position) the comparer looks at; (-1, 0) outside every set *)
+Definition ctx_rank (k : key) : Z * Z :=
+  match set_pos (kname k) with Some (i, v) => (Z.of_nat i, v) | None => ((-1)%Z, 0%Z) end.
 
+(* ByContextualEx: no captured variables any more; the only state is the fallback's *)
+Definition by_contextual_ex {S} (fb : scmp S key) : scmp S key :=
+  fun s a b =>
+    let '(s0, v0) := ctx_rank a in
+    let '(s1, v1) := ctx_rank b in
+    if negb (s0 =? s1)%Z then ((s0 <? s1)%Z, s)
+    else if negb (v0 =? v1)%Z then ((v0 <? v1)%Z, s)
+    else fb s a b.
+Definition by_contextual : scmp unit key := by_contextual_ex (lift by_name_smart).
+(* the same as a plain function of two keys *)
+Definition ctx_lt (a b : key) : bool :=
+  if peq (ctx_rank a) (ctx_rank b) then by_name_smart a b else plt (ctx_rank a) (ctx_rank b).
+
+(* ---- ByContextualEx as pinned (before the two repairs), for the refutation theorems ---- *)
+Definition infer (n : bytes) : option nat := option_map fst (set_pos n).
+Definition set_at (i : nat) : sortset := nth i sortSets [].
+Definition kpos (i : nat) (k : key) : option Z := lookup (set_at i) (lower (kname k)).
 Record cst := mkc { c_set : option nat; c_fb : bool }.
 Definition c_init := mkc None false.
-
-Definition by_contextual_ex {S} (fb : scmp S key) : scmp (cst * S) key :=
+Definition by_contextual_ex_pinned {S} (fb : scmp S key) : scmp (cst * S) key :=
   fun st a b =>
     let '(c, s) := st in
     let c1 := if negb (c_fb c) && (match c_set c with None => true | Some _ => false end)
@@ -200,10 +220,9 @@ Definition by_contextual_ex {S} (fb : scmp S key) : scmp (cst * S) key :=
              | Some v0, Some v1 => ((v0 <? v1)%Z, (c1, s))
              | _, _ => fall (mkc (c_set c1) true)
              end
-         | None => fall (mkc None true)   (* unreachable: !fallback implies set != nil *)
+         | None => fall (mkc None true)
          end.
-
-Definition by_contextual : scmp (cst * unit) key := by_contextual_ex (lift by_name_smart).
+Definition by_contextual_pinned : scmp (cst * unit) key := by_contextual_ex_pinned (lift by_name_smart).
 
 (* ---------------------------------------------------------------- dates.go *)
 Record dst := mkd { d_fmt : option nat; d_fb : bool }.
@@ -226,13 +245,15 @@ Definition by_date {S} (fb : scmp S key) : scmp (dst * S) key :=
       match d_fmt d1 with
       | Some i =>
           match kdate i a, kdate i b with
-          | Some t0, Some t1 => ((t0 <? t1)%Z, (d1, s))
+          | Some t0, Some t1 =>
+              if negb (t0 =? t1)%Z then ((t0 <? t1)%Z, (d1, s))
+              else fall d1                      (* same instant: the fallback breaks the tie *)
           | _, _ => fall (mkd (d_fmt d1) true)
           end
       | None => fall d1
       end.
 
-Definition by_date_with_contextual : scmp (dst * (cst * unit)) key := by_date by_contextual.
+Definition by_date_with_contextual : scmp (dst * unit) key := by_date by_contextual.
 
 (* ---------------------------------------------------------------- namevalue.go *)
 Definition value_sorter_ex {S} (fb : scmp S key) : scmp S item :=
@@ -256,8 +277,8 @@ Definition mode_eqb (a b : mode) : bool :=
   | _, _ => false
   end.
 
-Definition sstate := (dst * (cst * unit))%type.
-Definition s_init : sstate := (d_init, (c_init, tt)).
+Definition sstate := (dst * unit)%type.
+Definition s_init : sstate := (d_init, tt).
 
 (* lookupSorter: every sorter on the common state type (the unused parts stay untouched) *)
 Definition mode_cmp (m : mode) : scmp sstate item :=
@@ -363,53 +384,36 @@ Fixpoint nodupb {A} (eqb : A -> A -> bool) (l : list A) : bool :=
   | x :: r => negb (existsb (eqb x) r) && nodupb eqb r
   end.
 
-(* all keys are members of set i (each infers it) at pairwise distinct positions *)
-Definition ctx_dom_set (i : nat) (ks : list key) : bool :=
-  forallb (fun k => opt_nat_eqb (infer (kname k)) (Some i)) ks &&
-  nodupb opt_Z_eqb (map (kpos i) ks).
-(* no key is a member of any set *)
-Definition ctx_dom_none (ks : list key) : bool :=
-  forallb (fun k => opt_nat_eqb (infer (kname k)) None) ks.
-(* all keys have layout i and parse in it, to pairwise distinct instants *)
+(* all keys have layout i and parse in it *)
 Definition date_dom_layout (i : nat) (ks : list key) : bool :=
   forallb (fun k => match kfmt k with FmtOk (Some j) => Nat.eqb j i | _ => false end &&
-                    match kdate i k with Some _ => true | None => false end) ks &&
-  nodupb opt_Z_eqb (map (kdate i) ks).
+                    match kdate i k with Some _ => true | None => false end) ks.
 (* no key has a date layout *)
 Definition date_dom_none (ks : list key) : bool :=
   forallb (fun k => match kfmt k with FmtErr => true | _ => false end) ks.
 
-(* the pure orders the stateful comparators reduce to on those domains *)
-Definition pos_lt (i : nat) (a b : key) : bool :=
-  match kpos i a, kpos i b with Some x, Some y => (x <? y)%Z | _, _ => false end.
+(* chronological, the contextual order breaking ties (keys without an instant in layout i last) *)
+Definition date_rank (i : nat) (k : key) : Z * Z :=
+  match kdate i k with Some t => (0%Z, t) | None => (1%Z, 0%Z) end.
 Definition date_lt (i : nat) (a b : key) : bool :=
-  match kdate i a, kdate i b with Some x, Some y => (x <? y)%Z | _, _ => false end.
+  if peq (date_rank i a) (date_rank i b) then ctx_lt a b else plt (date_rank i a) (date_rank i b).
 
-(* which pure order (on names) a sort mode is on a key set, if the key set is in a state-free domain *)
-Definition ctx_pure (ks : list key) : option (key -> key -> bool) :=
-  match ks with
-  | [] => Some by_name_smart
-  | k :: _ =>
-      match infer (kname k) with
-      | Some i => if ctx_dom_set i ks then Some (pos_lt i) else None
-      | None => if ctx_dom_none ks then Some by_name_smart else None
-      end
-  end.
+(* which pure order ByDate is on a key set, if the key set is in a state-free domain *)
 Definition date_pure (ks : list key) : option (key -> key -> bool) :=
   match ks with
-  | [] => Some by_name_smart
+  | [] => Some ctx_lt
   | k :: _ =>
       match kfmt k with
       | FmtOk (Some i) => if date_dom_layout i ks then Some (date_lt i) else None
       | FmtOk None => None
-      | FmtErr => if date_dom_none ks then ctx_pure ks else None
+      | FmtErr => if date_dom_none ks then Some ctx_lt else None
       end
   end.
 Definition mode_pure (m : mode) (its : list item) : option (item -> item -> bool) :=
   match m with
   | MText => Some (on_name by_name)
   | MNumeric => Some (on_name by_name_smart)
-  | MContextual => option_map on_name (ctx_pure (map fst its))
+  | MContextual => Some (on_name ctx_lt)
   | MDate => option_map on_name (date_pure (map fst its))
   | MValue => Some value_asc
   end.
